@@ -224,8 +224,8 @@ def check_spatial(ctx, case):
                               {"via": via, "got": got[:10], "want": keep[:10], "n_got": len(got), "n_want": len(keep)})
             elif not same([r for r in rows(o.value) if r[1] not in amb], [list(events[i]) for i in keep]):
                 ctx.violation("filter_spatial_changed_fields", None)
-            if not in_place and src.event_count != len(events):
-                ctx.violation("filter_spatial_mutated_source", None)
+            if not in_place and (src.event_count != len(events) or not same(rows(src), [list(e) for e in events])):
+                ctx.violation("filter_spatial_mutated_source", {"n_before": len(events), "n_after": src.event_count})
 
 
 def nontrivial(case):
@@ -310,6 +310,10 @@ def spatial_cases(draw):
         fy = draw(st.sampled_from([0, 0.25, 0.5, 0.75]))
         x0, y0 = L._coord(L.lon0, L.i0 + i), L._coord(L.lat0, L.j0 + j)
         pts.append([x0 if fx == 0 else x0 + fx * L.fdh, y0 if fy == 0 else y0 + fy * L.fdh])
+    # the same place written in the 0..360 / -360..0 longitude convention: a different longitude as far as the region is concerned
+    for p in list(pts[:3]):
+        if draw(st.booleans()):
+            pts.append([p[0] + (360.0 if p[0] < 0 or draw(st.booleans()) else -360.0), p[1]])
     return {"k": "spatial", "region": rc, "points": pts}
 
 
